@@ -127,7 +127,8 @@ PROPS = {
         "extractors": [],
         "instances": 0,
         "rule": "block-4 texts of all 30 types from the grammar generator (LF/CRLF, with/without terminator) and mutants (text before the first "
-                "field, a content line starting with ':', an empty value; thorough: 66000 fields) through parse_block4_fields, judged by the "
+                "field, a content line starting with ':', an empty value, a numbered tag `NN#k` at a non-first position, a last content ending in "
+                "dashes / braces; thorough: 66000 fields) through parse_block4_fields, judged by the "
                 "independent tokeniser (every field once under its documented normalised tag, trimmed content, input order, stamps strictly "
                 "increasing); each resulting map through find_field_with_variant_sequential_constrained for six base tags (every occurrence "
                 "exactly once, in order) and through split_into_sequences under 8 configurations (partition); random request histories "
@@ -190,7 +191,10 @@ PROPS = {
         "extractors": ["T6"],
         "instances": n_stages,
         "rule": "every shipped scenario x draws x JSON mutants (field removal, value copy, code/currency substitution, repetition, "
-                "amount change) deserialised into the typed message; non-trivial = the full error list is non-empty; distinct = "
+                "amount change; every optional / repeatable member the draw lacks added from the regenerated struct declarations, repeatable "
+                "ones 1x and 3x with a later occurrence in another currency; optional components of present fields; every pair of "
+                "differently-violating single mutants composed on a message with two sequence elements, violations in the same and in "
+                "different elements) deserialised into the typed message; non-trivial = the full error list is non-empty; distinct = "
                 "distinct (type, error-code list)",
         "modelled": "the aggregation of all 30 validate_network_rules is regenerated as stage lists (T6) and proved for arbitrary "
                     "rule functions; rule bodies are not modelled here (C04); adapters are checked syntactically (T4/T6) and by the oracle",
@@ -239,8 +243,11 @@ PROPS.update({
         "rule": FIELD_RULE + "Oracle: every accepted content is serialised, re-parsed (an enum through the option letter it wrote) and must give an "
                 "equal value (JSON) and the same text again. c02msg: messages of all 30 types from the layout grammar with contents from the "
                 "library's spellings and from the documented formats at boundary lengths, LF / CRLF, input and output application headers, "
-                "no / empty / populated blocks 3 and 5: parse, serialise, re-parse, compare every header, trailer and field value, serialise again "
-                "and compare byte for byte.",
+                "no / empty / populated blocks 3 and 5 (half from a fixed list, half generated: every block-3 / block-5 tag subset in any order, "
+                "headers of every documented shape); every other message from the layout with the generator-only conventions read as plain "
+                "optional, plus remove / copy / swap / move mutants of every generated message (whatever is still accepted): parse, serialise, "
+                "re-parse, compare every header, trailer and field value, serialise again and compare byte for byte. The recorded f64 finding "
+                "excuses a difference only when the site is an amount-bearing field and nothing but JSON numbers differs.",
         "modelled": "as C05; the message-level statement (re-tokenising a serialised message gives the same fields) is proved over the C01 extraction model",
         "trusted_base": [KERNEL, HARNESS, FIELD_MODEL, MODEL_KERNEL],
         "assumptions": ["values are compared through serde_json::to_value (every component is serialised: no #[serde(skip)] in src/fields)"],
@@ -274,7 +281,7 @@ PROPS.update({
                 "elements; reject/return lines pushed into every text array; every amount shifted by 1, 0.5 and set to 0; plus random pairs "
                 "of those and random structural mutations. Each mutant that still deserialises is validated by the real "
                 "validate_network_rules(false); the error-code list is compared with the Lean rule model evaluated on the same JSON "
-                "(all 30 types modelled: 21 with rules, 9 without any rule); multi-site charge assignments (71F / 71G in every sequence-B occurrence and at settlement level, each absent / USD / EUR) for MT103/104/107. Non-trivial = non-empty error list; distinct = (type, code list). "
+                "(all 30 types modelled: 21 with rules, 9 without any rule); multi-site charge assignments (71F / 71G in every sequence-B occurrence and at settlement level, each absent / USD / EUR) for MT103/104/107; sum mutants for MT104/107/204 (2-10 transactions with amounts that are inexact in binary, the total set to the exact sum, +-0,02, +0,05, +1); field-23 mutants of MT935 (every function word x days none/1/7/9/10/31/99); every optional / repeatable member the draw lacks added from the regenerated struct declarations (repeatable ones 1x, 3x and 3x with a later occurrence in another currency) and optional components of present fields. Non-trivial = non-empty error list; distinct = (type, code list). "
                 "The evidence tallies every (type, code) pair that was triggered.",
         "modelled": "rule functions of all 21 types that have rules (MT101, 103, 104, 107, 110, 192, 196, 200, 202, 204, 205, 210, 292, 296, 910, 920, 935, "
                     "940, 941, 942, 950: 95 rules) over views read through the regenerated struct declarations (T3s), constant tables (T5r) and "
